@@ -51,7 +51,14 @@ func genRune(t *rapid.T) rune {
 	return 'x'
 }
 
+// trickyStrings: texts that look like escape sequences, HTML-sensitive characters (Go's encoder writes them as \u003c ...),
+// format verbs, separators of other syntaxes
+var trickyStrings = []string{`\u0026`, `\u003c`, `\\u003e`, `<>&`, `</script>&amp;`, `\n`, `\`, `"q"`, "\u2028\u2029", "%s%d%v", "{{.}}", "a\\", `\"`, `\u`, `\ud800`, "&lt;", "\\\\u0000"}
+
 func genString(t *rapid.T, maxLen int) string {
+	if rapid.IntRange(0, 11).Draw(t, "trickyString") == 0 {
+		return rapid.SampledFrom(trickyStrings).Draw(t, "tricky")
+	}
 	n := rapid.IntRange(0, maxLen).Draw(t, "strlen")
 	var sb strings.Builder
 	for i := 0; i < n; i++ {
